@@ -43,6 +43,20 @@ def pw():
     return h
 
 
+def concrete_density(d, kind="mixed"):
+    """a fixed, genuinely mixed, complex, non-diagonal density matrix of dimension d (deterministic numbers)"""
+    A = np.zeros((d, d), dtype=complex)
+    for i in range(d):
+        for j in range(d):
+            A[i, j] = ((i + 2 * j + 1) % 5) / 4.0 + 1j * (((2 * i + j) % 3) - 1) / 2.0
+    A[0, 0] += 1.0
+    R = A @ A.conj().T
+    if kind == "rank2":
+        w, U = np.linalg.eigh(R)
+        R = w[-1] * np.outer(U[:, -1], U[:, -1].conj()) + w[-2] * np.outer(U[:, -2], U[:, -2].conj())
+    return R / np.trace(R).real
+
+
 def reset_library_state(contraction=False, seed=None):
     """process-global state of the library that must not leak between paths / cases"""
     h = pw()
@@ -132,7 +146,10 @@ class World:
                 e.state = B.vector(f"b{i}", d)
             else:
                 _expect_shape(e.state, (d, d), f"envelope block {b['env']}")
-                e.state = B.density(f"b{i}", d, b.get("param", getattr(B, "default_param", "herm")))
+                if b.get("concrete"):
+                    e.state = B.jnp.array(concrete_density(d, b["concrete"]))
+                else:
+                    e.state = B.density(f"b{i}", d, b.get("param", getattr(B, "default_param", "herm")))
         elif b["kind"] == "ps":
             ce = self.ces[b.get("ce", 0)]
             members = [self.objs[m] for m in b["members"]]
@@ -147,7 +164,10 @@ class World:
                 d *= int(m.dimensions)
             if lvl == 2 or ps.expansion_level == h.ExpansionLevel.Matrix:
                 _expect_shape(ps.state, (d, d), f"product state {b['members']}")
-                ps.state = B.density(f"b{i}", d, b.get("param", getattr(B, "default_param", "herm")))
+                if b.get("concrete"):
+                    ps.state = B.jnp.array(concrete_density(d, b["concrete"]))
+                else:
+                    ps.state = B.density(f"b{i}", d, b.get("param", getattr(B, "default_param", "herm")))
             else:
                 _expect_shape(ps.state, (d, 1), f"product state {b['members']}")
                 ps.state = B.vector(f"b{i}", d)
